@@ -255,11 +255,33 @@ func checkNoCapturedWrites(c *core.Ctx, key string, p *progFacts) int {
 					continue
 				}
 				// completion tokens this goroutine sends
+				// (a token sent, a channel closed - also by a deferred close -, or Done() on a WaitGroup of the starter)
 				tokens := map[*ssa.MakeChan]bool{}
+				wgTokens := map[*ssa.Alloc]bool{}
 				allInstrs(fn, func(_ *ssa.Function, in ssa.Instruction) {
 					if sd, ok := in.(*ssa.Send); ok {
 						for _, src := range p.chanSources(sd.Chan) {
 							tokens[src] = true
+						}
+					}
+					ci, ok := in.(ssa.CallInstruction)
+					if !ok || len(ci.Common().Args) == 0 {
+						return
+					}
+					if bi, ok := ci.Common().Value.(*ssa.Builtin); ok && bi.Name() == "close" {
+						for _, src := range p.chanSources(ci.Common().Args[0]) {
+							tokens[src] = true
+						}
+					}
+					if cal := ci.Common().StaticCallee(); cal != nil && cal.String() == "(*sync.WaitGroup).Done" {
+						if fv, ok := ci.Common().Args[0].(*ssa.FreeVar); ok && fv.Parent() == fn {
+							for k, v := range fn.FreeVars {
+								if v == fv && k < len(mc.Bindings) {
+									if a, ok := mc.Bindings[k].(*ssa.Alloc); ok {
+										wgTokens[a] = true
+									}
+								}
+							}
 						}
 					}
 				})
@@ -291,7 +313,7 @@ func checkNoCapturedWrites(c *core.Ctx, key string, p *progFacts) int {
 						note(w.Pos(), "the starter's variable %s is assigned by the goroutine started at %s and captured by another goroutine", name, c.PosStr(g.Pos()))
 						continue
 					}
-					if at, ok := accessBeforeToken(p, f, b, gi+1, A, mc, tokens); !ok {
+					if at, ok := accessBeforeToken(p, f, b, gi+1, A, mc, tokens, wgTokens); !ok {
 						note(w.Pos(), "the goroutine started at %s assigns to %s, and %s touches %s at %s on a path that has not received that goroutine's completion token", c.PosStr(g.Pos()), name, fnKey(f), name, c.PosStr(at))
 					}
 				}
@@ -305,7 +327,7 @@ func checkNoCapturedWrites(c *core.Ctx, key string, p *progFacts) int {
 
 // accessBeforeToken walks the starter's CFG from the instruction after the go statement; a path ends at a receive
 // from one of the token channels; reaching an instruction that uses the variable first is a violation.
-func accessBeforeToken(p *progFacts, f *ssa.Function, b0 *ssa.BasicBlock, i0 int, A *ssa.Alloc, self *ssa.MakeClosure, tokens map[*ssa.MakeChan]bool) (token.Pos, bool) {
+func accessBeforeToken(p *progFacts, f *ssa.Function, b0 *ssa.BasicBlock, i0 int, A *ssa.Alloc, self *ssa.MakeClosure, tokens map[*ssa.MakeChan]bool, wgTokens map[*ssa.Alloc]bool) (token.Pos, bool) {
 	isToken := func(ch ssa.Value) bool {
 		for _, src := range p.chanSources(ch) {
 			if tokens[src] {
@@ -342,6 +364,14 @@ func accessBeforeToken(p *progFacts, f *ssa.Function, b0 *ssa.BasicBlock, i0 int
 			if u, ok := ins.(*ssa.UnOp); ok && u.Op == token.ARROW && isToken(u.X) {
 				stop = true
 				break
+			}
+			if ci, ok := ins.(*ssa.Call); ok && len(ci.Common().Args) == 1 {
+				if cal := ci.Common().StaticCallee(); cal != nil && cal.String() == "(*sync.WaitGroup).Wait" {
+					if a, ok := ci.Common().Args[0].(*ssa.Alloc); ok && wgTokens[a] {
+						stop = true // Wait returns only after this goroutine's Done
+						break
+					}
+				}
 			}
 			if uses(ins) {
 				return ins.Pos(), false
